@@ -52,6 +52,11 @@ func VerifH_C02_process_body() {
 	if len(o.Chunks) > 0 && o.Chunks[0] < 16 {
 		o.Chunks[0] = 16 // the sniffed prefix arrives in the first read
 	}
+	if !verifrt.Symbolic() && o.ReadErr {
+		// native replay: the real spooled file keeps up to 2 MB in memory, where a missing Close cannot be observed; a
+		// body that fails after more than that has been spilled to the temp dir, where it can
+		o.Chunks = append(o.Chunks, 2200000)
+	}
 	verifmodel.DoScript = []verifmodel.DoOutcome{o}
 	verifmodel.DoCalls, verifmodel.DoBodies, verifmodel.Spools = 0, nil, nil
 	req := &http.Request{Method: "GET", URL: &url.URL{Scheme: "http", Host: "h.example", Path: "/"}}
@@ -85,6 +90,10 @@ func VerifH_C02_process_body() {
 	for _, s := range verifmodel.Spools {
 		verifrt.Cover("spooled")
 		verifrt.Assert((u.GetBody() != nil) != (s.Closed > 0), "C02 a spooled copy is handed to the item or closed, never both, never neither")
+	}
+	if !verifrt.Symbolic() && u.GetBody() == nil {
+		left, _ := os.ReadDir(tmp)
+		verifrt.Assert(len(left) == 0, "C02 a spooled copy is handed to the item or closed, never both, never neither")
 	}
 }
 
